@@ -18,6 +18,16 @@ pub trait Write {
     async fn write_str(&mut self, str: &str) -> Result<(), Error>;
     async fn write_fmt(&mut self, fmt: Arguments) -> Result<(), Error>;
     async fn flush(&mut self) -> Result<(), Error>;
+
+    /// The number of bytes this writer currently holds, if it is able to discard
+    /// them again with [Write::rollback]. A writer that passes its data on
+    /// immediately returns `None`, which is the default.
+    fn position(&self) -> Option<usize> {
+        None
+    }
+
+    /// Discards everything that was written after `position`.
+    fn rollback(&mut self, _position: usize) {}
 }
 
 impl<const N: usize> Write for heapless::Vec<u8, N> {
@@ -44,6 +54,14 @@ impl<const N: usize> Write for heapless::Vec<u8, N> {
 
     async fn flush(&mut self) -> Result<(), Error> {
         Ok(())
+    }
+
+    fn position(&self) -> Option<usize> {
+        Some(self.len())
+    }
+
+    fn rollback(&mut self, position: usize) {
+        self.truncate(position);
     }
 }
 
@@ -72,6 +90,14 @@ impl Write for std::vec::Vec<u8> {
 
     async fn flush(&mut self) -> Result<(), Error> {
         Ok(())
+    }
+
+    fn position(&self) -> Option<usize> {
+        Some(self.len())
+    }
+
+    fn rollback(&mut self, position: usize) {
+        self.truncate(position);
     }
 }
 
